@@ -184,7 +184,7 @@ func runC13(c *eng.Ctx) {
 					c.R.Begin(idx)
 					sandwichOnce(c, "C13", idx, sc, j)
 				}
-				if sc.op.Kind != core.OpCreate && (sc.closer == "ancestor-close" || sc.closer == "provider-close") {
+				if sc.closer == "ancestor-close" || sc.closer == "provider-close" {
 					for j := 1; j <= points; j++ {
 						idx, mine := next()
 						if !mine {
@@ -840,6 +840,19 @@ func sandwichVariant(c *eng.Ctx, prop string, idx int, sc overlapScenario, j int
 	}
 	if clRes.Class == "PANIC" {
 		fs = append(fs, core.Finding{Clause: "overlap-panic", Sig: feat + ":closer", Detail: fmt.Sprintf("%s, pause point %d: the closing call panicked: %v", feat, j, clRes.Panic)})
+	}
+	if !r.Poisoned && op.Kind == core.OpCreate && opRes.Class == "ok" && opRes.NewScope > 0 && sc.closer != "cancel" && clRes.Class != "PANIC" && clRes.Ret > 0 {
+		// the closing call has returned: the scope that the overlapping CreateScope handed out is a
+		// descendant of a closed scope - the cascade closed it, or the creation would have had to fail
+		c.R.Count("scopes_handed_out_by_a_create_overlapping_the_cascade", 1)
+		for _, probe := range []core.Op{{Kind: core.OpGet, Scope: opRes.NewScope, Type: "S2"}, {Kind: core.OpCreate, Scope: opRes.NewScope, CtxKind: 1}} {
+			if pr := r.Do(probe); pr.Class == "ok" {
+				fs = append(fs, core.Finding{Clause: "open-descendant-after-close", Sig: feat + ":" + map[bool]string{true: "CreateScope", false: "Get"}[probe.Kind == core.OpCreate], Detail: fmt.Sprintf("%s, pause point %d: %s returned a scope while the closing call was inside its cascade (parked in a disposable's Close); after the closing call returned that scope still accepts %s", feat, j, op.String(), probe.String())})
+				if probe.Kind == core.OpCreate && pr.NewScope > 0 {
+					r.Do(core.Op{Kind: core.OpClose, Scope: pr.NewScope})
+				}
+			}
+		}
 	}
 	if !r.Poisoned && op.Kind == core.OpCreate && opRes.Class == "ok" && opRes.NewScope > 0 {
 		if cl := r.Do(core.Op{Kind: core.OpClose, Scope: opRes.NewScope}); cl.Class == "PANIC" {
